@@ -114,3 +114,82 @@ def replay_C13(ctx):
            if r.get("kind") != "pair" or (t[0] == r["a"] and t[1] == r["b"] and t[2] == r["predicate"])]
     print("replay: %s" % ("FAILS " + repr(bad[:3]) if bad else "passes"))
     return 1 if bad else 0
+
+
+# ------------------------------------------------------------------------------------------------ C14
+
+def parse_natlist(s):
+    return [int(x) for x in re.findall(r"\d+", s.split(":")[0])]
+
+
+def parse_tuples3(s):
+    s = re.sub(r"\s+", " ", s)
+    return [(m.group(1), m.group(2), m.group(3)) for m in re.finditer(r'\("([^"]*)", "([^"]*)", "([^"]*)"\)', s)]
+
+
+def generic_table_check(ctx, pid, prop_file, harness_cmd, cases_tpl, model_targets, model_files, interpret):
+    """Shared flow of the translator-tied properties: proofs, harness, cases evaluation."""
+    pr = proof_stage(ctx, prop_file)
+    cov_from_proof(ctx, pr, model_files)
+    okb, outb = harness_build(ctx)
+    if not okb:
+        ctx.violation(pid + ":harness-build", "harness does not build against the tree",
+                      {"kind": "build", "output": outb[-3000:], "unchecked": "correspondence " + pid}, nofail=True)
+        return finish(ctx, "proof")
+    rc, out, summ = harness_run(ctx, harness_cmd)
+    cov_from_summary(ctx, summ)
+    if rc != 0 or summ is None:
+        ctx.violation(pid + ":harness-run", "harness failed", {"kind": "harness", "output": out[-3000:], "unchecked": "correspondence " + pid}, nofail=True)
+        return finish(ctx, "proof")
+    found = False
+    for v in summ.get("violations", []):
+        if ctx.violation(v["signature"], v["what"], {"kind": "direct", "replay": v["replay"]}):
+            found = True
+    okm, outm, _ = coq_make(ctx, model_targets)
+    shutil.copyfile(os.path.join(ROOT, "coq", "Run", cases_tpl), os.path.join(ctx.rundir, "cases.v"))
+    rcc, outc = coqc_run(ctx, "observed.v") if okm else (1, outm)
+    if rcc == 0:
+        rcc, outc = coqc_run(ctx, "cases.v")
+    if rcc != 0:
+        ctx.violation(pid + ":cases-eval", "model evaluation failed", {"kind": "coqc", "output": outc[-3000:], "unchecked": "correspondence " + pid}, nofail=True)
+        return finish(ctx, "proof")
+    defs = parse_defs(outc)
+    found = interpret(ctx, defs, summ) or found
+    if not pr["built"] and not found:
+        ctx.violation("%s:proof:%s" % (pid, pr.get("broken_lemma")), "theorem no longer checks",
+                      {"kind": "proof", "file": pr.get("broken_file"), "theorem": pr.get("broken_lemma"),
+                       "error": (pr.get("error") or pr.get("out", ""))[-3000:]}, nofail=True)
+    return finish(ctx, "proof")
+
+
+def check_C14(ctx):
+    def interpret(ctx, defs, summ):
+        found = False
+        mm = parse_natlist(defs.get("model_mismatch", ""))
+        sm = parse_natlist(defs.get("spec_mismatch", ""))
+        mmm = parse_tuples3(defs.get("matrix_model_mismatch", ""))
+        msm = parse_tuples3(defs.get("matrix_spec_mismatch", ""))
+        nobs = int(re.sub(r"\D", "", defs.get("n_observed", "0")) or 0)
+        ctx.coverage["traces_validated_against_impl"] = nobs - len(mm) - len(mmm)
+        ctx.coverage["disagreements"] = {"random_vs_model": len(mm), "random_vs_oracle": len(sm), "matrix_vs_model": len(mmm), "matrix_vs_oracle": len(msm)}
+        cases = (summ.get("extra") or {}).get("random_cases", [])
+        for (k, v, c) in msm[:10]:
+            found = True
+            ctx.violation("C14:%s:%s:%s" % (k, v, c), "%s resolver: value %s with callback for %s does not behave as 'invoke iff same type'" % (k, v, c),
+                          {"kind": "pair", "resolver": k, "value": v, "callback": c})
+        for i in sm[:10]:
+            found = True
+            ctx.violation("C14:random:%d" % i, "resolver outcome contradicts the dispatch rule", {"kind": "case", "index": i, "case": cases[i] if i < len(cases) else None})
+        if (mm or mmm) and not found:
+            ctx.violation("C14:table-drift", "resolver model over the translator's branch tables disagrees with the running code",
+                          {"kind": "correspondence", "projection": "C14 observed-vs-model", "random": mm[:10], "matrix": mmm[:10]}, nofail=True)
+        return found
+    return generic_table_check(ctx, "C14", "Properties/C14.v", ["c14"], "C14Cases.v",
+                               ["Streams/Resolver.vo", "Gen/TablesShipped.vo"],
+                               ["Streams/Resolver.v (dispatch loops over the branch tables)",
+                                "modelled, not verified: Go type switches / type assertions on func signatures are represented by the interface name in the signature; deserialisation success of a well-typed document is assumed (deser_ok = true)"],
+                               interpret)
+
+
+def replay_C14(ctx):
+    return check_C14(ctx)
